@@ -19,12 +19,19 @@ PASTING_MACROS = ('Py_Get_ID', 'Py_Declare_ID')
 IDENT = re.compile(r'[A-Za-z_]\w*')
 
 
+WITH_PARAMS = False
+MACRO_BOUND = {'visit', 'arg'}     # names the CPython macro Py_VISIT refers to
+
+
 def local_names(prog):
-    """(file, first line of the function) -> set of local names declared in its body"""
+    """(file, first line of the function) -> set of local names declared in its body (and, with
+    WITH_PARAMS, the parameter names of the definition: a declaration may spell them differently)"""
     out = {}
     for f in prog.funcs.values():
         if f.body is None or f.is_lambda or not f.file:
             continue
+        if f.inits or (f.record and f.name == f.record.split('::')[-1]):
+            continue     # constructors: the initialiser list uses braces, the extent scan is too simple
         names = set()
         params = {p[0] for p in f.params if p[0]}
         for n in f.body.walk(into_lambdas=True):
@@ -40,7 +47,10 @@ def local_names(prog):
                         names.add(n.name)
                 params |= {p[0] for p in l.params if p[0]}
                 stack.append(l)
-        names -= params
+        if WITH_PARAMS:
+            names |= params - MACRO_BOUND
+        else:
+            names -= params
         if names:
             out.setdefault((f.file, f.line), set()).update(names)
     return out
@@ -74,6 +84,7 @@ def function_extent(text, line):
     start = pos
     i = pos
     depth = 0
+    paren = 0
     seen_open = False
     while i < len(text):
         j = _scan(text, i)
@@ -81,14 +92,18 @@ def function_extent(text, line):
             i = j
             continue
         c = text[i]
-        if c == '{':
+        if not seen_open and c in '([':
+            paren += 1
+        elif not seen_open and c in ')]':
+            paren -= 1
+        elif c == '{' and (seen_open or paren == 0):
             depth += 1
             seen_open = True
-        elif c == '}':
+        elif c == '}' and seen_open:
             depth -= 1
-            if seen_open and depth == 0:
+            if depth == 0:
                 return start, i + 1
-        elif c == ';' and not seen_open and depth == 0:
+        elif c == ';' and not seen_open and paren == 0:
             return None       # a declaration
         i += 1
     return None
@@ -166,4 +181,7 @@ def main(repo):
 
 
 if __name__ == '__main__':
+    if '--params' in sys.argv:
+        sys.argv.remove('--params')
+        WITH_PARAMS = True
     main(os.path.abspath(sys.argv[1]))
